@@ -25,7 +25,7 @@ ATOMS = ['Int8ul', 'Int16ul', 'Int32ul', 'Int64ul', 'Int8ub', 'Int16ub', 'Int32u
          'Flag', 'Pass']
 COMBINATORS = ['Struct', 'Const', 'Padding', 'Array', 'GreedyRange', 'FixedSized', 'CString', 'Prefixed', 'Aligned',
                'Bytes', 'Select', 'BitStruct', 'BitsInteger', 'Padded', 'Enum', 'Switch', 'Optional', 'Computed',
-               'PaddedString', 'Hex', 'this']
+               'PaddedString', 'Hex']
 
 
 def install(it, m):
@@ -34,6 +34,27 @@ def install(it, m):
         m.ns[a] = CDecl(a)
     for c in COMBINATORS:
         m.ns[c] = Builtin('construct.' + c, (lambda kind: lambda it_, args, kw, n: CDecl(kind, args, kw))(c))
+    def struct_(it_, args, kw, n):
+        # Struct(name=subcon, ...): keyword subcons are the named subcons 'name' / subcon, after the positional ones, in order
+        subs = list(args)
+        for name, sub in kw.items():
+            if isinstance(sub, CDecl):
+                subs.append(sub.renamed(name))
+            elif isinstance(sub, Obj):
+                sub.fields['$name'] = name
+                subs.append(sub)
+            else:
+                raise Unsupported('Struct keyword subcon %s' % type(sub).__name__)
+        return CDecl('Struct', subs, {})
+    m.ns['Struct'] = Builtin('construct.Struct', struct_)
+
+    class ThisExpr:
+        """construct's `this`: this.name is the function of the context that reads the field `name` parsed so far"""
+
+        def py_getattr(self, it_, name, node=None):
+            from . import libattr
+            return Builtin('this.' + name, lambda it2, a, k, n, name=name: libattr.getattr_(it2, a[0], name, n))
+    m.ns['this'] = ThisExpr()
     ad = ClassVal('Adapter', m, 'stub')
     m.ns['Adapter'] = ad
     m.ns['Container'] = ClassVal('Container', m, 'plain')
